@@ -58,11 +58,16 @@ class ArrConc:
         self.variant = rnd.choice(["data", "data_list", "shape_then_write"])
         self.pool = pool_for(self.dtype)
         self.fill = fill_for(self.dtype)
+        # calibration on floating-point storage: for half of the float concretisations the raw values and the non-zero
+        # origins carry a fraction (x + 0.1), so that the difference x - origin is only right in double precision
+        self.frac = mode == "calib" and self.dtype in ("float32", "float64") and (seed // 11) % 2 == 1
 
     def value(self, stamp, raw):
         if stamp[0] == 0:
             return self.fill
         if self.mode == "calib":
+            if self.frac:
+                return np.dtype(self.dtype).type(raw + 0.1)
             return raw                       # small integers defined by the specification (RawVal)
         h = zlib.crc32(("%d:%d:%d" % (stamp[0], stamp[1], self.seed)).encode())
         return self.pool[h % len(self.pool)]
@@ -89,6 +94,9 @@ def same(a, b, dt):
         return False
     if dt == "text":
         return all(str(x) == str(y) for x, y in zip(a.ravel(), b.ravel()))
+    if dt == "float64" and _W.get("tol"):
+        # fractional calibration values: the polynomial in double precision, whatever the evaluation order
+        return bool(np.allclose(a.astype(np.float64), b.astype(np.float64), rtol=1e-12, atol=1e-12, equal_nan=True))
     if dt.startswith("float"):
         af = a.astype(np.dtype(dt), copy=False).ravel()
         bf = b.astype(np.dtype(dt), copy=False).ravel()
@@ -202,7 +210,7 @@ class ArrSession:
                 h.polynom_coefficients = [float(x) for x in act["c"]] if act["c"] else None
             elif n == "SetOrigin":
                 h = self.handle()
-                h.expansion_origin = None if act["o"] == NONE else float(act["o"])
+                h.expansion_origin = None if act["o"] == NONE else float(act["o"]) + (0.1 if c.frac and act["o"] != 0 else 0.0)
             else:
                 raise core.MachineryError("unknown array action %r" % n)
         except core.MachineryError:
@@ -236,9 +244,36 @@ def check_state(sess, st, findings, stage, tx, calibrated_facet=False):
         return
     want = sess.expected_array(st)
     shape = tuple(st["shape"])
+    if "calibrated" not in st:
+        # the pre-state of a transition is exported without the derived read values: same definition as ReadVal in NixArray.tla
+        o = 0 if st["origin"] == NONE else st["origin"]
+        st = dict(st, calibrated=bool(st["coef"]) or st["origin"] not in (NONE, 0))
+        if st["calibrated"]:
+            def poly(x):
+                if not st["coef"]:
+                    return x
+                acc = 0
+                for k in reversed(st["coef"]):
+                    acc = acc * x + k
+                return acc
+            st["cal"] = [poly(r - o) for r in st["raw"]]
     calibrated = st.get("calibrated", False)
+    _W["tol"] = False
     if calibrated:
         wantread = np.array([float(x) for x in st["cal"]], dtype=np.float64).reshape(shape)
+        if c.frac:
+            # c0 + c1 (x - o) + ... of the stored values, in double precision
+            x = np.asarray(want).astype(np.float64)
+            o = 0.0 if st["origin"] in (NONE, 0) else float(st["origin"]) + 0.1
+            y = x - o
+            coef = [float(k) for k in st["coef"]]
+            if coef:
+                acc = np.zeros_like(y)
+                for k in reversed(coef):
+                    acc = acc * y + k
+                y = acc
+            wantread = y.reshape(shape)
+            _W["tol"] = True
     handles = [("A", sess.A), ("B", sess.B)]
     try:
         handles.append(("fresh", sess.blk.data_arrays["arr"]))
@@ -268,7 +303,7 @@ def check_state(sess, st, findings, stage, tx, calibrated_facet=False):
                 continue
             got = h[:]
             if calibrated:
-                if got.dtype != np.float64 or not np.array_equal(got, wantread):
+                if got.dtype != np.float64 or not same(got, wantread, "float64"):
                     findings.append(mk(stage, tx, "calibrated_read/" + label,
                                        {"expected": repr(wantread.tolist())[:200], "observed": repr(np.asarray(got).tolist())[:200],
                                         "dtype": str(got.dtype)}))
